@@ -83,9 +83,13 @@ func (g *Gen) funcEnv(st, old *State, res []Val) *Env {
 func (g *Gen) loopEnv(h *ssa.BasicBlock, from *ssa.BasicBlock, st *State) *Env {
 	env := g.funcEnv(st, g.entry, nil)
 	// variables in scope by source name
-	names := g.varsAt(h)
+	names, addrs := g.varsAt(h)
 	for n, v := range names {
 		env.vars[n] = envVar{v: v}
+	}
+	for n, v := range addrs {
+		// address-taken variable: its value is whatever the cell holds now
+		env.vars[n] = envVar{v: v, deref: true}
 	}
 	for _, in := range h.Instrs {
 		phi, ok := in.(*ssa.Phi)
@@ -136,7 +140,7 @@ func (g *Gen) rangeKeyName(phi *ssa.Phi) string {
 
 // varsAt resolves source variable names to the SSA values that hold them at
 // the head of a loop (definitions that dominate the head).
-func (g *Gen) varsAt(h *ssa.BasicBlock) map[string]Val {
+func (g *Gen) varsAt(h *ssa.BasicBlock) (map[string]Val, map[string]Val) {
 	type cand struct {
 		v   ssa.Value
 		blk *ssa.BasicBlock
@@ -186,17 +190,33 @@ func (g *Gen) varsAt(h *ssa.BasicBlock) map[string]Val {
 		}
 	}
 	out := map[string]Val{}
+	addrs := map[string]Val{}
 	for n, c := range best {
-		v := g.val(c.v)
 		if c.add {
-			continue // address-taken variables are reached through free vars / cells
+			// the DebugRef gives the variable's address (an Alloc that escapes):
+			// the variable's value is the content of that cell at the time of use
+			if a := g.val(c.v); a.Loc == nil && a.T != "" {
+				addrs[n] = a
+			}
+			continue
 		}
+		// a load of an address-taken variable is a snapshot that may be stale
+		// at the loop head: use the address instead
+		if u, ok := c.v.(*ssa.UnOp); ok && u.Op == token.MUL {
+			if _, isAlloc := u.X.(*ssa.Alloc); isAlloc {
+				if a := g.val(u.X); a.Loc == nil && a.T != "" {
+					addrs[n] = a
+				}
+				continue
+			}
+		}
+		v := g.val(c.v)
 		if v.Loc != nil || len(v.Tup) > 0 {
 			continue
 		}
 		out[n] = v
 	}
-	return out
+	return out, addrs
 }
 
 // ---------- translation ----------
